@@ -353,6 +353,10 @@ def defaultEps : Rat := 1 / 10000000000
 def ipcaEigs (nm1 : Rat) (s2 : List Rat) : List Rat := s2.map (· / nm1)
 /-- `l[l > eps]` -/
 def ipcaKeep (eps : Rat) (l : List Rat) : List Rat := l.filter (fun x => decide (eps < x))
+/-- the threshold `ipca` discards with since /repo db6ef6e: `max(eps, max(R.shape) · precision · l.max())`, `precision` =
+machine epsilon of the least precise floating point operand; never below `eps` -/
+def ipcaThr (eps : Rat) (shape : Nat) (prec : Rat) (l : List Rat) : Rat :=
+  max eps ((shape : Rat) * prec * l.foldl max (l.headD 0))
 /-- `U[: len(l), :]` -/
 def ipcaRows {α : Type} (rows : List α) (l : List Rat) : List α := rows.take l.length
 
